@@ -403,6 +403,16 @@ pub fn explore(thorough: bool) -> FsResult {
         ("file_read_to_string", vec![root.to_string_lossy().to_string()]),
         ("copy_file", vec![root.join("missing").to_string_lossy().to_string(), root.join("t").to_string_lossy().to_string()]),
     ];
+    let mut fault_args = fault_args;
+    // failures of the write itself, after the target was opened successfully (a device that is full)
+    if std::path::Path::new("/dev/full").exists() {
+        for len in [1usize, 5, 4096, 8191, 8192, 8193, 100_000] {
+            fault_args.push(("write_to_file", vec!["/dev/full".into(), "x".repeat(len)]));
+        }
+        let src = root.join("copy_source.txt");
+        let _ = std::fs::write(&src, "some contents");
+        fault_args.push(("copy_file", vec![src.to_string_lossy().to_string(), "/dev/full".into()]));
+    }
     for (name, args) in fault_args {
         faults += 1;
         let shown: Vec<String> = args.iter().map(|a| if a.len() > 60 { format!("{}…", &a[..40]) } else { a.clone() }).collect();
